@@ -151,6 +151,20 @@ class Gen:
         value = self.text()
         name = 'gen%d.js' % r.randrange(0, 3)
         if kind == 'sms' and r.random() < self.cfg.wild:
+            if r.random() < self.cfg.inner and r.random() < 0.5:
+                # a consistent combined leaf whose tables are then cut short: the segments that the
+                # outer map resolves into the inner map carry name / source indices outside the tables
+                k, v, nm, outer, orig, inner, rm = self.combined(value, name)
+                inner = dict(inner); outer = dict(outer)
+                which = r.randrange(0, 4)
+                if which in (0, 3) and inner['names']:
+                    inner['names'] = inner['names'][:r.randrange(0, len(inner['names']))]
+                if which == 1 and outer['names']:
+                    outer['names'] = outer['names'][:r.randrange(0, len(outer['names']))]
+                if which in (2, 3) and len(inner['sources']) > 1:
+                    cut = r.randrange(1, len(inner['sources']))
+                    inner['sources'] = inner['sources'][:cut]; inner['contents'] = inner['contents'][:cut]
+                return (k, v, nm, outer, orig, inner, rm)
             if r.random() < self.cfg.inner:
                 # wild outer and/or inner map around the combined-map code
                 inner_name = 'inner%d.js' % self.ninner
